@@ -23,6 +23,9 @@ CHECKS = {
  'C24': dict(cat='proof', tech='deductive: postconditions on new_schedule/_add_jitter/_ReconnectionHandler.run; generator loop cut at an inductive invariant (one in-bounds item per attempt, exit exactly at max_attempts)',
              text='Counts and bounds of both schedules are postconditions/loop invariants on the real generator code for all real delays and all attempt limits incl. 0 and None (no bound on the number of items); delays are reals (A-REAL).',
              ref='DESIGN.md §4 C24'),
+ 'C02': dict(cat='proof', tech='deductive: serialize(v) == Cassandra-serializer spec bytes as postconditions (fixed-width ints, date, time, zig-zag, vints, uvint, varint with an inductive loop invariant for all integers); bounded stand-ins for decimal and the out-of-range-raises clause of vints',
+             text='Byte-exactness is a postcondition against spec functions transcribed from Cassandra\'s serializers, discharged for all values (varint: unbounded integers via loop invariant + assumed monotonicity lemma of 2^k). Decimal and out-of-range vint values are bounded stand-ins (labelled in the evidence, not counted as proved).',
+             ref='DESIGN.md §4 C02'),
 }
 
 NA_REASON = {}
